@@ -8,10 +8,12 @@ GRAPH of the real heap: generated histories run on the real mongomock; after EVE
 stored documents and every object the caller holds (all arguments passed, all results returned
 so far) are walked, `id()` of every dict / list collected, and
 
-  (a) `Sep` is checked on the real heap (no object twice in the store, nothing stored is held);
+  (a) `Sep` is checked on the real heap (no object twice in the store, nothing stored is held,
+      nothing a cursor the caller keeps has cached — `Cursor._results` — is held or stored);
   (b) for every value-carrying position the step exercised, the aliasing observed between the
-      step's inputs, outputs and the store is compared with what the model answers for that
-      position and value (driver commands `c07 flow`, `c07 proj`);
+      step's inputs, outputs, the store and a cursor's cache is compared with what the model
+      answers for that position and value (driver commands `c07 flow`, `c07 fill`, `c07 out`,
+      `c07 proj`);
   (c) every argument is compared (deeply, key order included) with a deep copy taken before the
       call — the only permitted change is the `_id` an insert adds (a changed pipeline with
       container constants is reported under the name of the repaired defect `agg-literal-alias`);
@@ -19,7 +21,12 @@ so far) are walked, `id()` of every dict / list collected, and
 then every object handed over in that step is SCRIBBLED on (marker key in every dict, marker
 appended to every list) and the collection re-read through `find({})` and through the raw
 store: nothing may have changed.  Single-document writes must change at most one stored
-document.  Sharing outside the listed known findings is a VIOLATION with the history as replay.
+document.  Cursors are kept open across steps: what a cursor hands out again (re-iteration after
+`rewind()`, `cursor[i]`, a `clone()`, `cursor.distinct`) — after the caller edited what it got the
+first time — must be new objects and, as long as nothing was written in between, the values of
+the first read.  Sharing outside the listed known findings is a VIOLATION with the history as
+replay; the witnesses of the findings repaired in the library (known_findings.json, status
+"fixed") run through the same checks on every run, with nothing listed as known.
 """
 import collections
 import copy
@@ -39,15 +46,20 @@ RULE = ('history = 4-30 generated operations on one collection, nested mutable v
         '$min/$max/positional $set/replacement/insert/upsert and read back through find (with and '
         'without projection, $slice, $elemMatch), find_one, find_one_and_update/replace/delete '
         '(both return modes), distinct, aggregate ($match/$project/$addFields/$unwind/$group), '
-        'cursor re-reads; after every step: Sep on the real heap, aliasing per position against '
+        'cursors kept open and read again in the same and in later steps (rewind + iterate, '
+        'cursor[i], clone, cursor.distinct, each after the caller edited the earlier results); '
+        'after every step: Sep on the real heap, aliasing per position against '
         'the model, arguments against pre-call copies, scribble on everything handed over and '
         're-read; non-trivial = the history has a multi-document update carrying a container '
         'followed by a single-document update into that container, or a projected read returning a '
         'container (followed by the scribble); distinct = by hash of the history')
 
 ASSUMPTIONS = [
-    'a cursor is consumed inside the call that created it (find = list(find(...))); laziness of '
-    'Cursor (the projection dict is read at first iteration) is not part of the check',
+    'find = list(find(...)): laziness of Cursor (the projection dict is read at first iteration) '
+    'is not part of the check; the cursors of find_rewind are kept and read again (the value of a '
+    're-read is compared with the first read only while no write happened in between: a cursor is '
+    'not required to be a snapshot)',
+    'the cache of a cursor is observed through the private attribute Cursor._results',
     'aggregate stages $sample, $out, $lookup, $graphLookup, $facet, $bucket are not generated '
     '(C16 covers the pipeline argument); bulk_write and the deprecated entry points are not '
     'generated',
@@ -55,6 +67,11 @@ ASSUMPTIONS = [
     'real heap that no object occurs twice in the store)',
     'object identity of scalars (str, int, datetime, ObjectId: immutable) is not tracked',
     'order of children is not part of the heap model (it does not concern identity)',
+    'sharing INSIDE one aggregation result is not modelled: a pipeline that puts one value of a '
+    'document at two places ($addFields: {q: "$b", r: "$b"}) returns a document holding that '
+    'object twice (r["q"] is r["r"]); no later read can see it, the model sends every travelling '
+    'value through its own copy, and the check looks at sharing between a result and the store, '
+    'the arguments, earlier results and the other results of the call',
 ]
 
 MODEL_OPS = {
@@ -63,7 +80,8 @@ MODEL_OPS = {
     'edit_nested': ['update_one'], 'follow_up': ['update_one'],
     'replace_one': ['replace_one', 'replace_upsert'],
     'find': ['find', 'find_projected'], 'find_one': ['find_one', 'find_projected'],
-    'find_rewind': ['find', 'find_projected', 'cursor_reread'],
+    'find_rewind': ['find', 'find_projected', 'cursor_next', 'cursor_index', 'cursor_distinct'],
+    'cursor_again': ['cursor_next', 'cursor_index', 'cursor_distinct'],
     'foau': ['find_one_and_update', 'find_one_and_projected', 'find_one_and_upsert'],
     'foar': ['find_one_and_replace', 'find_one_and_projected', 'find_one_and_upsert'],
     'foad': ['find_one_and_delete', 'find_one_and_projected'],
@@ -72,10 +90,12 @@ MODEL_OPS = {
 # positions at which the model says the code does not copy -> the known finding that lists it
 # (proj-id-alias, proj-op-alias, result-id-alias, proj-arg-mutated were fixed by 5ac4c3c: a
 # recurrence is a VIOLATION)
-# (agg-literal-alias was fixed by 2eb2452: the model copies at aggLiteral, sharing there is a
-# VIOLATION)
-FINDING_OF_POS = {'cursorCache': 'cursor-cache-alias'}
+# (agg-literal-alias was fixed by aab0261, cursor-cache-alias by b973460: the model copies at
+# aggLiteral and at cursorOut, sharing there is a VIOLATION)
+FINDING_OF_POS = {}
 MARK = '__c07_scribble__'
+MARK2 = '__c07_edit__'
+READ_ONLY = ('find', 'find_one', 'find_rewind', 'cursor_again', 'distinct', 'aggregate')
 
 
 # ---------------------------------------------------------------------------------------------
@@ -151,6 +171,39 @@ def scribble(v, skip_ids):
             o.append(MARK)
             n += 1
     return n
+
+
+def edit_all(v, skip_ids):
+    """what a caller does to a result before it asks the cursor again: a key into every dict, an
+    element onto every list; returns what `undo_edits` needs"""
+    done = []
+    for o, _ in list(containers(v)):
+        if id(o) in skip_ids:
+            continue
+        if isinstance(o, dict):
+            o[MARK2] = 1
+            done.append(o)
+        elif isinstance(o, list):
+            o.append(MARK2)
+            done.append(o)
+    return done
+
+
+def undo_edits(done):
+    for o in done:
+        if isinstance(o, dict):
+            o.pop(MARK2, None)
+        elif o and o[-1] == MARK2:
+            o.pop()
+
+
+def cache_of(cur):
+    r = getattr(cur, '_results', None)
+    return r if isinstance(r, list) else []
+
+
+def canon(vals):
+    return sorted((pretty(v) for v in vals))
 
 
 def enc_now(v, oids):
@@ -267,6 +320,8 @@ class HistoryRun(object):
         self.multi_fields = None
         self.nontrivial = set()
         self.errors = collections.Counter()
+        self.cursors = []         # cursors the caller keeps (with what they gave the first time)
+        self.version = 0          # number of write calls so far
 
     # -- the store as it is -----------------------------------------------------------------
     def raw(self):
@@ -339,16 +394,32 @@ class HistoryRun(object):
         elif k == 'find_rewind':
             f = c.arg('filter', a[0])
             p = c.arg('projection', a[1]) if a[1] is not None else None
+            script = a[2] if len(a) > 2 else [['rewind']]
             cur = coll.find(f, p)
             first = list(cur)
-            cur.rewind()
-            second = list(cur)
             c.info['docs'] = first
-            c.info['reread'] = second
             for d in first:
                 c.results.append(('doc', d))
-            for d in second:
-                c.results.append(('doc_again', d))
+            rec = {'cur': cur, 'expected': copy.deepcopy(first), 'version': self.version,
+                   'projected': p is not None, 'step': c.i, 'reported': set()}
+            self.cursors = self.cursors[-2:] + [rec]
+            c.info['cursor'] = rec
+            c.info['filled'] = True
+            # the caller edits what it got, then asks the cursor again
+            edits = []
+            skip = set(id(o) for _, d in self.raw() for o, _ in containers(d))
+            for d in first:
+                edits.extend(edit_all(d, skip))
+            try:
+                self.cursor_script(c, rec, script)
+            finally:
+                undo_edits(edits)
+        elif k == 'cursor_again':
+            if not self.cursors:
+                return
+            rec = self.cursors[a[0] % len(self.cursors)]
+            c.info['cursor'] = rec
+            self.cursor_script(c, rec, [a[1]])
         elif k in ('foau', 'foar'):
             f = c.arg('filter', a[0])
             u = c.arg('update' if k == 'foau' else 'replacement', a[1])
@@ -429,6 +500,77 @@ class HistoryRun(object):
         else:
             raise ValueError('unknown op ' + k)
 
+    def cursor_script(self, c, rec, script):
+        """the caller asks a cursor it kept for its results again; every object handed out is
+        recorded (`handouts`), and its value is compared with what the cursor gave the first time
+        as long as nothing was written in between"""
+        cur = rec['cur']
+        outs = c.info.setdefault('handouts', [])
+        unchanged = rec['version'] == self.version
+        exp = rec['expected']
+
+        def differs(what, got, want):
+            self.stats['cursor re-read compared with the first read'] += 1
+            if not same(got, want):
+                self.events.append(('cursor-cache-alias', c.i, {
+                    'cursor_of_step': rec['step'], 'action': what,
+                    'first_read': pretty(want), 'read_again': pretty(got)}))
+
+        for act in script:
+            kind = act[0]
+            self.stats['cursor:' + kind] += 1
+            try:
+                if kind == 'rewind':
+                    cur.rewind()
+                    got = list(cur)
+                    for d in got:
+                        outs.append(('cursorOut', d))
+                        c.results.append(('doc_again', d))
+                    if unchanged:
+                        differs('rewind(); list(cursor)', got, exp)
+                elif kind == 'next':
+                    d = next(cur, None)
+                    if d is not None:
+                        outs.append(('cursorOut', d))
+                        c.results.append(('doc_again', d))
+                elif kind == 'index':
+                    d = cur[act[1]]
+                    outs.append(('cursorOut', d))
+                    c.results.append(('doc_again', d))
+                    if unchanged and act[1] < len(exp):
+                        differs('cursor[%d]' % act[1], d, exp[act[1]])
+                elif kind == 'clone':
+                    got = list(cur.clone())
+                    for d in got:
+                        outs.append(('cursorOut', d))
+                        c.results.append(('doc_again', d))
+                    if unchanged:
+                        differs('list(cursor.clone())', got, exp)
+                elif kind == 'distinct':
+                    v1 = cur.distinct(act[1])
+                    want = canon(v1)
+                    for v in v1:
+                        outs.append(('distinctVal', v))
+                    c.results.append(('values', v1))
+                    skip = set(id(o) for _, d in self.raw() for o, _ in containers(d))
+                    done = edit_all(v1, skip)
+                    try:
+                        v2 = cur.distinct(act[1])
+                    finally:
+                        undo_edits(done)
+                    for v in v2:
+                        outs.append(('distinctVal', v))
+                    c.results.append(('values_again', v2))
+                    self.stats['cursor re-read compared with the first read'] += 1
+                    if canon(v2) != want:
+                        self.events.append(('cursor-cache-alias', c.i, {
+                            'cursor_of_step': rec['step'], 'action': 'cursor.distinct(%r) twice'
+                            % act[1], 'first_read': want, 'read_again': canon(v2)}))
+                else:
+                    raise ValueError('unknown cursor action %r' % (act,))
+            except (IndexError, TypeError, StopIteration) as e:
+                self.errors['cursor:' + type(e).__name__] += 1
+
     # -- (c) arguments ----------------------------------------------------------------------
     def check_args(self, c):
         for role, obj, before in c.args:
@@ -458,16 +600,16 @@ class HistoryRun(object):
                 'role': role, 'before': pretty(before), 'after': pretty(obj)}))
 
     # -- (a) + (b): the sharing graph -------------------------------------------------------
-    def inst(self, c, pos, value, observed, exact=True, detail=None):
+    def inst(self, c, pos, value, observed, exact=True, detail=None, cmd='flow'):
         if not has_container(value):
             return
         self.stats['inst:' + pos] += 1
-        if self.stats_step[pos] >= 3 and not observed:
+        if self.stats_step[pos, cmd] >= 3 and not observed:
             return
-        self.stats_step[pos] += 1
+        self.stats_step[pos, cmd] += 1
         self.instances.append({'pos': pos, 'value': value, 'wire': enc_now(value, self.oids),
                                'observed': bool(observed), 'exact': exact, 'step': c.i,
-                               'op': c.k, 'detail': detail})
+                               'op': c.k, 'detail': detail, 'cmd': cmd})
 
     def check_heap(self, c, pre):
         sids = self.store_ids()
@@ -539,9 +681,37 @@ class HistoryRun(object):
                     self.inst(c, 'findDoc', d, observe(d))
             elif c.exc is None:
                 self.projected(c, docs, proj_before[0], pre, sidset, covered)
-        if k == 'find_rewind' and c.exc is None:
-            for d1, d2 in zip(c.info.get('docs', []), c.info.get('reread', [])):
-                self.inst(c, 'cursorCache', d1, d1 is d2)
+        # ---- cursors the caller keeps: what they have cached, what they hand out again
+        now_held = set(self.held_ids)
+        for _, obj, _ in c.args:
+            now_held |= idset(obj)
+        for role, obj in c.results:
+            if role == 'doc':
+                now_held |= idset(obj)
+        for rec in self.cursors:
+            cids = idset(cache_of(rec['cur']))
+            if cids & sidset and 'store' not in rec['reported']:
+                rec['reported'].add('store')
+                self.events.append(('cursor-cache-aliases-store', c.i, {
+                    'cursor_of_step': rec['step']}))
+            if cids & now_held and 'held' not in rec['reported']:
+                rec['reported'].add('held')
+                self.events.append(('cursor-cache-aliases-held-object', c.i, {
+                    'cursor_of_step': rec['step']}))
+        rec = c.info.get('cursor')
+        if rec is not None:
+            cached = cache_of(rec['cur'])
+            cids = idset(cached)
+            if c.info.get('filled') and not rec['projected']:
+                # store -> cache leg alone (the documents of an unprojected cursor)
+                for d in cached:
+                    self.inst(c, 'findDoc', d, observe(d), cmd='fill')
+            seen = now_held | sidset | cids
+            for pos, obj in c.info.get('handouts', []):
+                # cache -> caller leg alone: is it a new object, all the way down?
+                self.inst(c, pos, obj, bool(idset(obj) & seen), cmd='out')
+                covered.update(idset(obj) & sidset)
+                seen |= idset(obj)
         if k == 'aggregate':
             pos = agg_pos(c.args[0][1])
             for d in docs:
@@ -569,8 +739,19 @@ class HistoryRun(object):
                 self.events.append(('unexplained-alias', c.i, {
                     'handed_over_as': where, 'path': path_str(p),
                     'stored_at': [sids[x][0], path_str(sids[x][1])]}))
+        # ---- every result is an object of its own: no container in two results of one call
+        owner = {}
+        for n, (role, obj) in enumerate(c.results):
+            for x in idset(obj):
+                if owner.setdefault(x, n) != n and x not in sidset:
+                    self.events.append(('results-share-object', c.i, {
+                        'first': [owner[x], c.results[owner[x]][0]], 'second': [n, role]}))
+                    owner = None
+                    break
+            if owner is None:
+                break
         # ---- results that are objects the caller held before (other than through the store)
-        if k != 'find_rewind':
+        if True:
             argids = set()
             for _, obj, _ in c.args:
                 argids |= idset(obj)
@@ -666,6 +847,8 @@ class HistoryRun(object):
             c.exc = e
             self.errors[wire.err_name(e)] += 1
         self.stats['op:' + c.k] += 1
+        if c.k not in READ_ONLY:
+            self.version += 1
         if c.exc is not None:
             for k, d in self.raw():
                 if pre_obj.get(self.freeze_id(k), id(d)) != id(d):
@@ -844,7 +1027,7 @@ class Judge(object):
                                           'detail': key})
         # round 2: every position instance -> alias / fresh according to the model
         qs = [(run, x) for run in runs for x in run.instances]
-        lines = ['c07 flow %s %s' % (x['pos'], x['wire']) for run, x in qs]
+        lines = ['c07 %s %s %s' % (x.get('cmd', 'flow'), x['pos'], x['wire']) for run, x in qs]
         answers = wire.run_driver(lines) if lines else []
         for (run, x), ans in zip(qs, answers):
             t = ans.split()
@@ -860,7 +1043,8 @@ class Judge(object):
                                                    'positions the harness sees exercised',
                           'operation': x['op'], 'position': x['pos']})
                 ctx.violation(r, no_input=True)
-            self.table[(x['pos'], t[0], 'alias' if x['observed'] else 'fresh')] += 1
+            leg = {'fill': ' (store -> cache)', 'out': ' (cache -> caller)'}.get(x.get('cmd'), '')
+            self.table[(x['pos'] + leg, t[0], 'alias' if x['observed'] else 'fresh')] += 1
             if x['observed'] and model_alias:
                 cls = FINDING_OF_POS.get(x['pos'])
                 if cls in self.known:
@@ -896,6 +1080,7 @@ def run(ctx, proof, driver_ok):
     judge = Judge(ctx)
     judge.load_table()
     known = judge.known
+    regress = regression(ctx)
     stats = collections.Counter()
     errors = collections.Counter()
     genstats = collections.Counter()
@@ -945,12 +1130,14 @@ def run(ctx, proof, driver_ok):
         'rule': RULE,
         'samples': samples,
         'position_instances_model_vs_python': table,
-        'positions_never_exercised': sorted(set(judge.table_rows) - set(table) -
+        'positions_never_exercised': sorted(set(judge.table_rows) -
+                                            set(k.split(' ')[0] for k in table) -
                                             {'insertArg', 'updTemp', 'rollbackSnapshot',
                                              'upsertInsert', 'projOpCopied'}),
         'model_table': judge.table_rows,
         'model_operations': judge.op_rows,
         'events_on_the_real_heap': dict(judge.events),
+        'witnesses_of_repaired_findings': regress,
         'projection_flows_model_raises_python_returns': dict(judge.proj_model_errors),
         'checks': {k: v for k, v in stats.items() if not k.startswith(('op:', 'inst:'))},
         'operation_histogram': {k[3:]: v for k, v in stats.items() if k.startswith('op:')},
@@ -967,6 +1154,27 @@ def run_one(ctx, history, oids, known=None):
     r = HistoryRun(history, oids, judge.known).run()
     judge.batch([r])
     return r, judge
+
+
+def regression(ctx):
+    """the witnesses of the findings repaired in the library, through the same checks as a
+    generated history and with NOTHING listed as known: the defect coming back is a VIOLATION"""
+    out = {}
+    for e in common.load_known(ID):
+        w = e.get('witness', {})
+        if e.get('status') != 'fixed' or not w.get('wire_history'):
+            continue
+        oids = wire.Oids()
+        history = wire.dec(w['wire_history'], oids)
+        before = len(ctx.violations)
+        r, judge = run_one(ctx, history, oids, known=set())
+        if w.get('consequence') and consequence(w['consequence']):
+            rr = render(r)
+            rr.update({'kind': 'the repaired defect %s is back: %s' % (e['id'], e['what']),
+                       'fixed_by': e.get('commit')})
+            ctx.violation(rr, rank=1)
+        out[e['id']] = 'python = spec' if len(ctx.violations) == before else 'VIOLATION'
+    return out
 
 
 def replay(ctx, path):
